@@ -188,7 +188,9 @@ def _logged(it, c, bound, thunk):
     """Ghost log of the calls made by contract (for clauses that say which calls an iteration
     makes and relate their arguments and results: calls_since / call_result / call_arg)."""
     log = it.__dict__.setdefault('call_log', [])
-    e = dict(q=c.qualname, args=dict(bound), result=None, done=False, cond=bool(it.ctx.nofork))
+    memo = {}
+    e = dict(q=c.qualname, args={k: V.clone_value(v, memo) for k, v in bound.items()},
+             result=None, done=False, cond=bool(it.ctx.nofork))     # arguments as they are NOW
     log.append(e)
     r = thunk()
     e['result'] = r
